@@ -288,11 +288,13 @@ struct ImageDamage : Family {
 								std::string lw;
 								Out lo = callLib(plan, [&] {
 									if (!longLoader) {
-										// its first sprites come from a smaller sibling of the PRT (one palette, every image using it)
+										// its first sprites come from a sibling of the PRT that is smaller in one respect (one palette, every image
+										// using it) and larger in another (three more images): whatever the loader remembers from then is stale later
 										disk::put("pixlong.bmp", prngBytes(plan.seed ^ 0x91, 6000));
 										ArtFile small = *art;
 										if (small.palettes.size() > 1) small.palettes.resize(1);
 										for (auto& im : small.imageMetas) im.paletteIndex = 0;
+										if (!small.imageMetas.empty()) for (int q = 0; q < 3; ++q) small.imageMetas.push_back(small.imageMetas[0]);
 										sharedArt = std::make_shared<ArtFile>(small);
 										longLoader = std::make_unique<SpriteLoader>("pixlong.bmp", sharedArt);
 										for (size_t q = 0; q < small.imageMetas.size() && q < 4; ++q) { try { longLoader->ExtractImage(q, "_s/long_first.bmp"); } catch (const std::exception&) {} }
